@@ -234,6 +234,25 @@ func catalogue() []*deviant {
 		}
 		return nil, true
 	}})
+	// renaming a file onto itself: "write the new name, delete the old one" without the same-name case loses the file
+	add(&deviant{name: "rename-self-deletes", rename: func(fs *mem.FS, o, n string) (error, bool) {
+		if o != n {
+			return nil, false
+		}
+		if info, err := fs.Stat(o); err != nil || info.IsDir() {
+			return nil, false
+		}
+		return fs.Remove(o), true
+	}})
+	add(&deviant{name: "rename-self-truncates", rename: func(fs *mem.FS, o, n string) (error, bool) {
+		if o != n {
+			return nil, false
+		}
+		if info, err := fs.Stat(o); err != nil || info.IsDir() {
+			return nil, false
+		}
+		return hackpadfs.WriteFullFile(fs, o, nil, 0o666), true
+	}})
 	add(&deviant{name: "chmod-noop", chmod: func(fs *mem.FS, n string, m hackpadfs.FileMode) (error, bool) {
 		if _, err := fs.Stat(n); err != nil {
 			return nil, false
